@@ -6,13 +6,34 @@ CFG = {
         'bitword.ToStr/FromStr': 'bitword.BitWord[n].ToStr(bitword.BitWord[n].FromStr(s))',
         'bitword.FirstDiff': 'bitword.BitWord[n].FirstDiff',
         'bitword.FromStrs': 'bitword.BitWord[n].FromStrs',
-        'bitword.ToStrs': 'bitword.BitWord[n].ToStrs'},
+        'bitword.ToStrs': 'bitword.BitWord[n].ToStrs',
+        'bitword.Get/large': '[bitword.BitWord[n].Get(s,i), bitword.BitWord[n].FromStr(s)[i]]',
+        'bitword.FirstDiff/large': 'bitword.BitWord[n].FirstDiff',
+        'bitword.FromStr/large': 'bitword.BitWord[n].FromStr',
+        'bitword.ToStr/large': 'bitword.BitWord[n].ToStr',
+        'bitword.FromStr/cmp': 'bytes.Compare(bitword.BitWord[n].FromStr(a), bitword.BitWord[n].FromStr(b))',
+        'bitword.FromStr/ToStr': 'bitword.BitWord[n].FromStr(bitword.BitWord[n].ToStr(ws))',
+        'bitword.Get/any': 'bitword.BitWord[n].Get',
+        'bitword.FirstDiff/any': 'bitword.BitWord[n].FirstDiff',
+        'bitword.ToStr/any': 'bitword.BitWord[n].ToStr'},
  'rule': 'every op takes the width n in {1,2,4,8} first. cases = corpus + exhaustive sweeps (all 256 one-byte strings and all '
          'strings of length <= 2 over {00,01,7f,80,ff,a,b} x 4 widths: FromStr, ToStr(FromStr), Get at every index; FirstDiff on '
          'all pairs of strings of length <= 1 x all windows; ToStr on all in-range word lists up to lengths with a partial last '
          'byte) + random strings of 0..40 bytes over 5 alphabets, random in-range word lists, FromStrs/ToStrs of 0..4 elements, '
          'and FirstDiff on pairs sharing a prefix (one flipped bit / prefix / equal / unrelated tails) with from and end drawn '
-         'around lim, both lengths, -1, 0 and beyond. A case is non-trivial when its string/word list is non-empty (FirstDiff: '
+         'around lim, both lengths, -1, 0 and beyond; + inputs whose byte/bit/word offsets cross 2^8 and 2^16 (narrowing conversions): '
+         'strings of 31..33 and 255..258 bytes and word lists of ~256/~2048 words through the ordinary ops, and the /large ops '
+         '(judged by the linear-time word-by-word reading of Spec/BitwordSpecDirect.v, proved equal to the chunk reading) on a '
+         '~8.2 KB and a ~66 KB random string: FromStr of the whole string, Get and FromStr[i] at word indexes just below/at/above '
+         'bit offsets 2^11, 2^16, 2^19 (= byte 2^16) and word index 2^16, FirstDiff with one flipped bit just beyond those '
+         'boundaries and runs to the end (result = word count > 2^16), ToStr of ~8200 words (2^16 words once, thorough tier); '
+         '+ FromStrs/ToStrs on all lists of length <= 3 over four elements (equal neighbours, empty elements); '
+         '+ widened: FromStr/cmp (sign of bytes.Compare of the word slices = sign of comparing the strings) on all pairs of '
+         'strings of length <= 1 over the 7-byte alphabet, a sample (thorough: all) of the pairs of length <= 2, random pairs '
+         'sharing a prefix; FromStr/ToStr (= ws plus the zero words completing the last byte) on every ToStr case of up to 4096 words.  Only with VERIF_C08_WIDE=1 (behaviour OUTSIDE the statement, proved for the model as C08_Get_any / '
+         'C08_FirstDiff_any / C08_ToStr_any and confirmed on the real code with that flag, but not part of the default run so that a '
+         'rewrite that keeps the in-domain behaviour stays silent): Get at every index from below 0 to beyond the end, FirstDiff '
+         'with negative from and end < -1, ToStr on arbitrary bytes. A case is non-trivial when its string/word list is non-empty (FirstDiff: '
          'both strings non-empty); the shape key is (op, width, length class, high-bit presence | word-in-byte, byte class | '
          'partial-last-byte count | end class, from vs lim, where the first difference is, la vs lb); distinct = distinct (op,args)',
  'assumptions': ['strings are byte lists (every element in [0,256)); ToStr only on words < 2^n (out-of-range words are outside the property)',
@@ -21,5 +42,8 @@ CFG = {
  'trusted': ['modelled not verified: Go byte shifts (shr8/shl8 in Model/Bitword.v: a count >= 8 gives 0) and the byte-typed constant (1<<n)-1'],
  'explanation': 'Model/Bitword.v restates FromStr/ToStr/Get/FirstDiff with the same loops, index and shift arithmetic (u8 on the '
                 'ToStr accumulator and on wordMask); Spec/BitwordSpec.v defines the words of s as the values of the consecutive n-bit '
-                'chunks of msb_bits s; Properties/C08.v proves model = spec for all strings and the four widths.',
+                'chunks of msb_bits s; Properties/C08.v proves model = spec for all strings and the four widths (FromStr, Get, ToStr incl. '
+                'the uint8 accumulator, ToStr(FromStr s) = s, FirstDiff as first hit and as minimum, FromStrs/ToStrs), and that the '
+                'word-by-word reading used for large inputs is the same specification; widened: FromStr keeps the byte order and is '
+                'injective, Get / FirstDiff on every index / window (panic domains), ToStr on arbitrary bytes (carries of the accumulator).',
 }
